@@ -60,9 +60,30 @@ def run(repo, res):
     flank = [(s, g) for s, g in app if any(pol and U(e) == "erase_flanks" for e, pol in bool_guards(g))]
     gaps = [(s, g) for s, g in app if (s, g) not in flank]
     res.require(len(flank) == 2 and len(gaps) == 1, "R28.2", "util.preprocess_ts two flank intervals under erase_flanks, one gap interval rule", f"{len(flank)} flank and {len(gaps)} gap interval sources", repo.loc(f))
-    thr = d.single("threshold_gaps")
-    ok = thr is not None and U(thr).replace(" ", "") == "np.where(gaps>=minimum_gap)[0]" and U(d.single("gaps")).replace(" ", "") == "sites[1:]-sites[:-1]"
-    res.require(ok, "R28.2", "util.preprocess_ts gaps are differences of adjacent site positions compared with >= minimum_gap", f"threshold: `{U(thr)}`", repo.loc(f))
+    # the loop that appends the gap interval iterates the indices where (adjacent site distance) >= minimum_gap
+    thr = None
+    if gaps:
+        loops = [e[1] for e in gaps[0][1] if e[0] == "loop" and isinstance(e[1], ast.For)]
+        if loops:
+            thr = d.inline(loops[-1].iter)
+    cond = None
+    if isinstance(thr, ast.Subscript) and U(thr.slice) == "0" and isinstance(thr.value, ast.Call) and U(thr.value.func) in ("np.where", "np.nonzero") and len(thr.value.args) == 1:
+        cond = thr.value.args[0]
+    elif isinstance(thr, ast.Call) and U(thr.func) == "np.flatnonzero" and len(thr.args) == 1:
+        cond = thr.args[0]
+    ok = False
+    if isinstance(cond, ast.Compare) and len(cond.ops) == 1:
+        l, op, r = cond.left, cond.ops[0], cond.comparators[0]
+        if isinstance(op, ast.LtE):
+            l, op, r = r, ast.GtE(), l
+        base = None  # X in  X[1:] - X[:-1]  /  np.diff(X)
+        if isinstance(l, ast.BinOp) and isinstance(l.op, ast.Sub) and isinstance(l.left, ast.Subscript) and isinstance(l.right, ast.Subscript):
+            if U(l.left.slice).replace(" ", "") == "1:" and U(l.right.slice).replace(" ", "") == ":-1" and U(l.left.value) == U(l.right.value):
+                base = U(l.left.value)
+        elif isinstance(l, ast.Call) and U(l.func) == "np.diff" and len(l.args) == 1 and not l.keywords:
+            base = U(l.args[0])
+        ok = isinstance(op, ast.GtE) and U(r) == "minimum_gap" and base is not None and base.replace(" ", "") in ("sites", "tables.sites.position[:]", "tables.sites.position")
+    res.require(ok, "R28.2", "util.preprocess_ts gaps are differences of adjacent site positions compared with >= minimum_gap", f"gap indices: `{U(thr)}`", repo.loc(f))
     so = d.origins(ast.Name(id="sites", ctx=ast.Load()))
     res.require(so == {"tables.sites.position[:]"}, "R28.2", "util.preprocess_ts site positions come from the input's site table", f"origin {sorted(so)}", repo.loc(f))
     paths = [p for p in enum_paths(f) if p.exit == "return"]
